@@ -518,7 +518,7 @@ class Evaluator(object):
             ok = {
                 int: ('bit_length', 'to_bytes', 'real', 'numerator', 'value'),
                 bytes: ('join', 'hex', 'startswith', 'endswith', 'decode', 'index', 'find', 'count', 'rjust', 'ljust', 'lstrip'),
-                VBuf: ('append', 'extend', 'pop', 'hex', 'insert', 'clear', 'copy', 'decode', 'startswith', 'endswith'),
+                VBuf: ('append', 'extend', 'pop', 'hex', 'insert', 'clear', 'copy', 'decode', 'startswith', 'endswith', 'ljust', 'rjust'),
                 str: ('format', 'encode', 'join', 'upper', 'lower', 'startswith', 'endswith', 'replace', 'strip', 'split'),
                 list: ('append', 'extend', 'pop', 'index', 'insert', 'reverse', 'copy', 'count'),
                 dict: ('get', 'keys', 'values', 'items', 'pop', 'setdefault'),
@@ -934,6 +934,8 @@ class Evaluator(object):
                 return getattr(recv.tobytes(), name)(self._native(args[0]))
             if name == 'decode':
                 return recv.tobytes().decode(*[self._native(a) for a in args])
+            if name in ('ljust', 'rjust'):
+                return VBuf(getattr(recv.tobytes(), name)(*[self._native(a) for a in args]))       # a new bytearray, padded
         if isinstance(recv, bytes):
             if name == 'join':
                 parts = [self._native(x) for x in self._iter(args[0])]
